@@ -138,7 +138,9 @@ func VerifyFunc(w *World, cs *ContractSet, ct *Contract) *FuncResult {
 		}
 		g, ok := e.evalSpec(st, ct.PkgPath, cl.GenFn, clauseArgs(st), st)
 		if ok {
+			e.curAssumeProps = cl.Props
 			e.assume(st, g)
+			e.curAssumeProps = nil
 		}
 	}
 	for _, u := range ct.Uses {
